@@ -1,7 +1,7 @@
 """C16 -- the second-generation parser builds a faithful parse tree."""
 import re
 
-from rules import hirq, mirq
+from rules import hirq, mirq, listshape
 from rules.core import walk, norm_path, AnchorMissing
 
 LEVEL = "other"
@@ -403,6 +403,38 @@ def _bool_table(F, fn):
     return out
 
 
+LISTS = [
+    # construct, (alpha function, close token, item parsers), (delta function, close token, item parsers)
+    ("struct members", ("parse_struct_members", "BraceRight", ["parse_member"]), ("parse_struct_members", "BraceRight", ["parse_member"])),
+    ("parameters", ("parse_rest_of_function_signature", "ParenRight", ["parse_parameter"]), ("parse_rest_of_function_signature", "ParenRight", ["parse_parameter"])),
+    ("call arguments", ("parse_arguments", "ParenRight", ["parse_expression"]), ("parse_rest_of_arguments", "ParenRight", ["parse_expression"])),
+    ("array literal", ("parse_rest_of_array", "BracketRight", ["parse_expression"]), ("parse_primary_expression", "BracketRight", ["parse_expression"])),
+    ("structure literal", ("parse_body_of_structural", "BraceRight", ["parse_expression", "parse_member_expression"]), ("parse_rest_of_structural", "BraceRight", ["parse_expression"])),
+]
+
+
+def r7_list_shapes(run, F):
+    """Both parsers accept the same shapes of comma-separated lists: empty, trailing comma, no comma after the last item,
+    and never two items without a comma -- decided by reachability between the token tests/consumes and the item
+    parser calls on each function's MIR (rules/listshape.py)."""
+    A, D = "alpha::parser::", "delta::parser::"
+    for name, (af, ac, ai), (df, dc, di) in LISTS:
+        ba, bd = F.body(A + af), F.body(D + df)
+        ra, ca = listshape.shape(F, F.lib, ba, "alpha::lexer::Token", "Comma", ac, set(A + x for x in ai))
+        rd, cd = listshape.shape(F, F.lib, bd, "delta::lexer::BaseToken", "Comma", dc, set(D + x for x in di))
+        run.require(ca["sep_true"] >= 1 and ca["close_ok"] >= 1 and ca["items"] >= 1, "alpha %s: list events not recognised %s" % (af, ca))
+        run.require(cd["sep_true"] >= 1 and cd["close_ok"] >= 1 and cd["items"] >= 1, "delta %s: list events not recognised %s" % (df, cd))
+        for k in ("empty", "trailing", "bare_last", "juxtaposed"):
+            run.ob("R7-LIST-SHAPES", "%s|%s" % (name, k), ra[k] == rd[k], "%s / %s" % (F.where(ba), F.where(bd)),
+                   "%s: `%s` is %s by the first generation and %s by the second" % (
+                       name, {"empty": "open close", "trailing": "item , close", "bare_last": "item close (no comma after the last item)",
+                              "juxtaposed": "item item (no comma between)"}[k],
+                       "accepted" if ra[k] else "rejected", "accepted" if rd[k] else "rejected"),
+                   sample={"alpha": ra, "delta": rd})
+        run.ob("R7-LIST-SHAPES", "%s|separator required" % name, not ra["juxtaposed"] and not rd["juxtaposed"], F.where(bd),
+               "two items are never accepted without a comma between them")
+
+
 def check(run):
     F = run.facts("A")
     r1_balance(run, F)
@@ -410,3 +442,4 @@ def check(run):
     r3_layout(run, F)
     r4_depth(run, F)
     r5_agree(run, F)
+    r7_list_shapes(run, F)
